@@ -30,7 +30,7 @@ MCWorld == [blocks |-> <<
 
 MCInit ==
     /\ world = MCWorld
-    /\ cfg = [peers |-> MCPeers, lastN |-> MCLastN, allow |-> {}]
+    /\ cfg = [peers |-> MCPeers, lastN |-> MCLastN, allow |-> {}, msgTimeout |-> 2, refreshLag |-> 0]
     /\ now = 0
     /\ peer = [p \in MCPeers |-> NonePeer]
     /\ tip = Genesis /\ tipTD = 0 /\ lastN = <<>>
